@@ -17,18 +17,18 @@ const PWS: [&[u8]; 2] = [b"correct horse battery staple", b"another 20-byte pass
 const USERS: [&[u8]; 2] = [b"alice", b"bob"];
 
 #[derive(Clone, Debug, PartialEq)]
-enum Act {
+pub enum Act {
     Register { u: usize, pw: usize, srv: usize },
     Login { u: usize, srv: usize, ctx: bool },
 }
 #[derive(Clone)]
-struct Rec {
+pub struct Rec {
     file: Vec<u8>,
     export: Vec<u8>,
     pw: usize,
 }
 #[derive(Clone)]
-struct St {
+pub struct St {
     pos: usize,
     regs: usize,
     logins: usize,
@@ -39,8 +39,9 @@ struct St {
     secrets: Vec<Vec<u8>>,
     wire: Vec<Vec<u8>>,
 }
-struct World {
+pub struct World {
     api: Api,
+    mode: Mode,
     setups: Vec<Vec<u8>>,
     max_regs: usize,
     max_logins: usize,
@@ -88,7 +89,7 @@ impl Lts for World {
         match a {
             Act::Register { u, pw, srv } => match flow::register(&self.api, &mut t, &self.setups[*srv], PWS[*pw], USERS[*u], None, None, None) {
                 Ok(r) => {
-                    if n.exports.contains(&r.export) {
+                    if self.mode == Mode::Own && n.exports.contains(&r.export) {
                         cx.violate("export-key/not-separated", "a new registration returns an export key that an earlier registration of this history already returned".into());
                     }
                     n.exports.push(r.export.clone());
@@ -98,7 +99,7 @@ impl Lts for World {
                     n.regs += 1;
                 }
                 Err(e) => {
-                    cx.violate("honest-step/error", format!("{} {:?}", e.step, e.e));
+                    honest_fail(cx, self.mode, "registration-fails", format!("an honest registration in a history fails at {}: {:?}", e.step, e.e));
                     return None;
                 }
             },
@@ -107,7 +108,7 @@ impl Lts for World {
                 let c: Option<&[u8]> = if *ctx { Some(b"c") } else { None };
                 match flow::login(&self.api, &mut t, &self.setups[*srv], Some(&rec.file), PWS[rec.pw], USERS[*u], c, None, None, None) {
                     Ok(l) => {
-                        if l.export != rec.export {
+                        if self.mode == Mode::Own && l.export != rec.export {
                             cx.violate("export-key/unstable", "a successful login returns a different export key than the registration that produced the record".into());
                         }
                         n.secrets.push(l.sk_client.clone());
@@ -115,7 +116,7 @@ impl Lts for World {
                         n.logins += 1;
                     }
                     Err(e) => {
-                        cx.violate("login/failed", format!("honest login fails at {}: {:?}", e.step, e.e));
+                        honest_fail(cx, self.mode, "login-fails", format!("an honest login in a history fails at {}: {:?}", e.step, e.e));
                         return None;
                     }
                 }
@@ -125,6 +126,10 @@ impl Lts for World {
         Some(n)
     }
     fn check(&self, s: &St, cx: &mut Cx) {
+        if self.mode != Mode::Own {
+            cx.outcome("state-ok");
+            return;
+        }
         // secrets never appear verbatim in transmitted / stored bytes
         for sec in s.secrets.iter().filter(|x| x.len() >= 16) {
             for w in &s.wire {
@@ -143,7 +148,7 @@ impl Lts for World {
     }
 }
 
-fn world(api: &Api, tier: Tier, seed: u64) -> Result<World, String> {
+pub fn world(api: &Api, tier: Tier, seed: u64, mode: Mode) -> Result<World, String> {
     let mut t = Tape::seeded(seed, "c16/setups");
     let a = api.setup(&mut t).map_err(|e| format!("{:?}", e))?;
     let b = api.setup(&mut t).map_err(|e| format!("{:?}", e))?;
@@ -154,7 +159,7 @@ fn world(api: &Api, tier: Tier, seed: u64) -> Result<World, String> {
         (true, true) => (2, 2, 2),
         (true, false) => (3, 3, 2),
     };
-    Ok(World { api: *api, setups: vec![a, b], max_regs, max_logins, nsrv, seed })
+    Ok(World { api: *api, mode, setups: vec![a, b], max_regs, max_logins, nsrv, seed })
 }
 
 pub fn run(tier: Tier, seed: u64) -> i32 {
@@ -162,7 +167,7 @@ pub fn run(tier: Tier, seed: u64) -> i32 {
     let items = all_apis();
     let models = std::sync::Mutex::new(vec![]);
     let mut tot = Totals::default();
-    tot.merge(fw::run_items("C16", &items, |a| a.name().to_string(), |api, cx| match world(api, tier, seed) {
+    tot.merge(fw::run_items("C16", &items, |a| a.name().to_string(), |api, cx| match world(api, tier, seed, Mode::Own) {
         Ok(w) => {
             let st = explore::bfs(&w, cx, 400_000);
             models.lock().unwrap().push(json!({"suite": api.name(), "max_registrations": w.max_regs, "max_logins": w.max_logins, "servers": w.nsrv, "states": st.states, "edges": st.edges, "depth": st.max_depth, "capped": st.capped}));
@@ -174,8 +179,8 @@ pub fn run(tier: Tier, seed: u64) -> i32 {
     if tier.thorough() {
         let api = all_apis()[0];
         let mut cx = Cx::new("C16", api.name());
-        let mine = explore::bfs(&world(&api, Tier::Quick, seed).unwrap(), &mut cx, 400_000);
-        let (s, d) = explore::stateright_count(world(&api, Tier::Quick, seed).unwrap(), 16);
+        let mine = explore::bfs(&world(&api, Tier::Quick, seed, Mode::Own).unwrap(), &mut cx, 400_000);
+        let (s, d) = explore::stateright_count(world(&api, Tier::Quick, seed, Mode::Own).unwrap(), 16);
         cross = json!({"suite": api.name(), "model": "quick bounds", "mine": {"states": mine.states, "depth": mine.max_depth}, "stateright": {"states": s, "depth": d}, "agree": s == mine.states && d == mine.max_depth});
         if !(s == mine.states && d == mine.max_depth) {
             tot.machinery_errors.push(format!("stateright cross-count disagrees: {}", cross));
